@@ -546,7 +546,7 @@ package meta
 
 // strategy invariants needed by the verified helpers: the DFA strategy has a DFA; the anchored-literal strategy has its
 // info and (ASSUMED, argument in DESIGN S.2/C19) alMatch over it is the reference
-//@ spec func stratOK(e *Engine) bool = (e.strategy == UseDFA ==> e.dfa != nil) && (e.strategy == UseAnchoredLiteral ==> alInfoOK(e.anchoredLiteralInfo) && (forall h []byte :: alMatch(h, e.anchoredLiteralInfo) == refFound(e, false, h, 0))) && (e.reverseSuffixSearcher != nil ==> rsOK(e.reverseSuffixSearcher) && (forall h []byte :: rsRef(e.reverseSuffixSearcher, h) == refFound(e, false, h, 0)))
+//@ spec func stratOK(e *Engine) bool = (e.strategy == UseDFA ==> e.dfa != nil) && (e.strategy == UseAnchoredLiteral ==> alInfoOK(e.anchoredLiteralInfo) && (forall h []byte :: alMatch(h, e.anchoredLiteralInfo) == refFound(e, false, h, 0))) && (e.reverseSuffixSearcher != nil ==> rsOK(e.reverseSuffixSearcher) && (forall h []byte :: rsRef(e.reverseSuffixSearcher, h) == refFound(e, false, h, 0))) && (e.reverseSuffixSetSearcher != nil ==> rssOK(e.reverseSuffixSetSearcher) && (forall h []byte :: rssRef(e.reverseSuffixSetSearcher, h) == refFound(e, false, h, 0))) && (e.reverseInnerSearcher != nil ==> riOK(e.reverseInnerSearcher) && (forall h []byte :: riRef(e.reverseInnerSearcher, h) == refFound(e, false, h, 0)))
 //@ trusted func (*Engine).isMatchReverseAnchored
 //@   requires leafOK(e)
 //@   modifies @searchState
@@ -572,12 +572,45 @@ package meta
 //@   requires leafOK(e) && stratOK(e)
 //@   modifies @searchState
 //@   ensures result == refFound(e, e.longest, haystack, 0)
-//@ trusted func (*Engine).isMatchReverseSuffixSet
-//@   requires leafOK(e)
+// suffix-SET variant of the same proof: the candidate's end is the end of the suffix literal found at it
+//@ uninterpreted spec func rssRef(s *ReverseSuffixSetSearcher, h []byte) bool
+//@ uninterpreted spec func rssCand(s *ReverseSuffixSetSearcher, h []byte) int
+//@ uninterpreted spec func sufLenAt(s *ReverseSuffixSetSearcher, h []byte, pos int) int
+//@ trusted func (*ReverseSuffixSetSearcher).getSuffixLen
+//@   ensures result == sufLenAt(s, haystack, pos) && 0 <= result
+//@ spec func rssOK(s *ReverseSuffixSetSearcher) bool = s != nil && s.reverseDFA != nil && s.reverseDFA.pikevm != nil && s.pikevm != nil && s.prefilter != nil && (forall h []byte :: rssRef(s, h) ==> 0 <= rssCand(s, h) && pfOcc(s.prefilter, h, rssCand(s, h)) && sufLenAt(s, h, rssCand(s, h)) > 0 && revAcc(s.reverseDFA, h, ite(rssCand(s, h) + sufLenAt(s, h, rssCand(s, h)) > len(h), len(h), rssCand(s, h) + sufLenAt(s, h, rssCand(s, h))))) && (forall h []byte, en int :: revAcc(s.reverseDFA, h, en) ==> rssRef(s, h)) && (forall h []byte :: pvFound(s.pikevm, h) == rssRef(s, h)) && (forall h []byte, i int :: pfOcc(s.prefilter, h, i) ==> 0 <= i && i < len(h))
+//@ func (*ReverseSuffixSetSearcher).IsMatch
+//@   props C01 C05
+//@   opt safety=off
+//@   requires rssOK(s) && len(haystack) <= 140737488355328
+//@   modifies @searchState
+//@   ensures result == rssRef(s, haystack)
+//@   loop 1: invariant 0 <= start && rssOK(s)
+//@   loop 1: invariant rssRef(s, haystack) ==> start <= rssCand(s, haystack)
+//@ func (*Engine).isMatchReverseSuffixSet
+//@   props C01
+//@   opt safety=off
+//@   requires leafOK(e) && stratOK(e)
 //@   modifies @searchState
 //@   ensures result == refFound(e, e.longest, haystack, 0)
-//@ trusted func (*Engine).isMatchReverseInner
-//@   requires leafOK(e)
+// reverse-INNER variant: a candidate is an occurrence of the inner literal; it yields a match when the prefix half
+// accepts backwards from it (or is trivially satisfied at offset 0) and the suffix half accepts forwards from it
+//@ uninterpreted spec func riRef(s *ReverseInnerSearcher, h []byte) bool
+//@ uninterpreted spec func riCand(s *ReverseInnerSearcher, h []byte) int
+//@ spec func riAcc(s *ReverseInnerSearcher, h []byte, c int) bool = ((c == 0 && (s.universalPrefix || s.startAnchored)) || (c > 0 && revAcc(s.reverseDFA, h, c))) && dfaHasMatch(s.forwardDFA, h[c:])
+//@ spec func riOK(s *ReverseInnerSearcher) bool = s != nil && s.reverseDFA != nil && s.reverseDFA.pikevm != nil && s.forwardDFA != nil && s.pikevm != nil && s.prefilter != nil && (forall h []byte :: riRef(s, h) ==> 0 <= riCand(s, h) && pfOcc(s.prefilter, h, riCand(s, h)) && riAcc(s, h, riCand(s, h))) && (forall h []byte, c int :: 0 <= c && c < len(h) && riAcc(s, h, c) ==> riRef(s, h)) && (forall h []byte :: pvFound(s.pikevm, h) == riRef(s, h)) && (forall h []byte, i int :: pfOcc(s.prefilter, h, i) ==> 0 <= i && i < len(h))
+//@ func (*ReverseInnerSearcher).IsMatch
+//@   props C01 C05
+//@   opt safety=off
+//@   requires riOK(s) && len(haystack) <= 140737488355328
+//@   modifies @searchState
+//@   ensures result == riRef(s, haystack)
+//@   loop 1: invariant 0 <= searchStart && riOK(s)
+//@   loop 1: invariant riRef(s, haystack) ==> searchStart <= riCand(s, haystack)
+//@ func (*Engine).isMatchReverseInner
+//@   props C01
+//@   opt safety=off
+//@   requires leafOK(e) && stratOK(e)
 //@   modifies @searchState
 //@   ensures result == refFound(e, e.longest, haystack, 0)
 //@ trusted func (*Engine).isMatchMultilineReverseSuffix
